@@ -9,7 +9,7 @@ From Coq Require Import ZArith List Bool Lia.
 Import ListNotations.
 From Osmo Require Import Base.DecModel CL.TickMath CL.CLMath CL.CLPool CL.CLSwap CL.CLStep
   CLR.Accum CLR.Rewards CLR.RSwap CLR.RStep C07.Base C07.LP
-  C08.Proj C08.Telescope C08.View C08.Static C08.Stages C08.Ops C08.OpInside C08.SwapTrace C08.Crux C08.Claim C08.Conseq C08.Frame C08.Never C08.Paid.
+  C08.Proj C08.Telescope C08.View C08.Static C08.Stages C08.Ops C08.OpInside C08.SwapTrace C08.Crux C08.Claim C08.Conseq C08.Frame C08.Never C08.SwapWf C08.Dom C08.StaticOk C08.Paid C08.PaidOps C08.PaidSwap C08.PaidHist.
 Open Scope Z_scope.
 
 Lemma unscale_ge : forall sc t, 0 < sc -> 0 <= t -> t * P18 * P18 < unscale sc t * sc * P18 + P18 * sc + sc.
@@ -100,4 +100,55 @@ Proof.
   pose proof (d_mul_bounds _ _ G0 HS) as MB. rewrite Z.sub_diag, Z.mul_0_l.
   set (g := ins d w cur l u - dsel d (ar_snap r)) in *. set (m := d_mul g (ar_shares r)) in *. set (gs := g * ar_shares r) in *.
   clearbody gs m. lia.
+Qed.
+
+(* ---------- one collect, from below ---------- *)
+Lemma short_collect_one : forall rs id q b w x, PI rs -> 0 < sc_of rs ->
+  pos_get (s_pos (r_base rs)) id = Some q ->
+  (forall r, acc_get (rw_spread (r_rw rs)) id = Some r -> forall d, 0 <= dsel d (ar_unclaimed r)) ->
+  collect_spread_rewards (s_bank (r_base rs)) (r_rw rs) (p_scaling (s_pool (r_base rs))) (p_tick (s_pool (r_base rs))) q = Some (b, w, x) ->
+  let rs' := mkRS (set_bank (r_base rs) b) w in
+  forall d, Phi d rs <= Phi d rs' + LC (sc_of rs).
+Proof.
+  intros rs id q b w x [RI [RM [TOT FR]]] HSC Q HUN E rs'. pose proof RI as [I [D S]].
+  destruct (collect_spread_rewards_bank _ _ _ _ _ _ _ _ E) as [PC BC].
+  assert (QI : ps_id q = id) by (eapply pos_get_id; exact Q). assert (QIn : In q (s_pos (r_base rs))) by (eapply pos_get_in; exact Q).
+  rewrite QI in PC. set (cur := p_tick (s_pool (r_base rs))) in *. set (P := s_pos (r_base rs)) in *.
+  set (lo := ps_lower q) in *. set (hi := ps_upper q) in *. set (O := pos_remove P id).
+  assert (OS : ids_sorted P) by apply (inv_pos_sorted _ I).
+  assert (OIn : forall p, In p O -> In p P /\ ps_id p <> id) by (intros p Hp; apply (in_pos_remove P id p OS Hp)).
+  pose proof (PI_PT rs RI) as HPT. fold P in HPT.
+  assert (PTO : PT (r_rw rs) O) by (apply (PT_subset _ P); [exact HPT|intros p Hp; apply OIn; exact Hp]).
+  destruct (HPT q QIn) as [Hlu TK]. fold lo hi in Hlu, TK.
+  destruct (RM q QIn) as [r [R SH]]. rewrite QI in R.
+  assert (LP : forall p, In p P -> 0 < ps_liq p).
+  { intros p Hp. pose proof (inv_pos_ok _ I) as F. rewrite Forall_forall in F. destruct (F p Hp) as [_ [X _]]. exact X. }
+  assert (SHO : forall p, In p O -> shares_of (r_rw rs) p = ps_liq p) by (intros p Hp; apply recs_match_shares; [exact RM|apply OIn; exact Hp]).
+  assert (ZSH : zsum (shares_of (r_rw rs)) O = zsum ps_liq O) by (apply zsum_ext; exact SHO).
+  assert (NNO : 0 <= zsum ps_liq O) by (apply zsum_nonneg; intros p Hp; pose proof (LP p (proj1 (OIn p Hp))); lia).
+  assert (TO : zsum ps_liq O = zsum ps_liq P - ps_liq q) by (apply zsum_remove; exact Q).
+  pose proof (LP q QIn) as LQ.
+  destruct (stage_claim _ _ cur _ _ _ _ _ _ O PC R ltac:(lia) Hlu TK (fun p Hp => proj2 (OIn p Hp)) PTO
+             ltac:(intros p Hp; rewrite (SHO p Hp); pose proof (LP p (proj1 (OIn p Hp))); lia)
+             ltac:(rewrite ZSH, TOT; fold P; lia) HSC) as [CL [PTD [TKD [SHD [TOTD [REC SOD]]]]]].
+  assert (NZ : ar_shares r <> 0) by lia. destruct (REC NZ) as [r' [R' SH']].
+  intro d.
+  destruct (stage_claim_low _ _ cur _ _ _ _ _ _ O PC R ltac:(lia) (HUN r R) Hlu TK (fun p Hp => proj2 (OIn p Hp)) PTO
+             ltac:(intros p Hp; rewrite (SHO p Hp); pose proof (LP p (proj1 (OIn p Hp))); lia)
+             ltac:(rewrite TOT; fold P; lia) HSC d) as [oq [OQ [OQ0 INEQ]]].
+  assert (ON : Owed d rs' = zsum (owed d w cur) O + oq).
+  { unfold Owed, cur_tick. simpl. fold P cur. rewrite <- (OQ r' R' NZ).
+    pose proof (zsum_remove (owed d w cur) P id q Q) as ZR. fold O in ZR. rewrite ZR.
+    unfold owed at 3. rewrite QI, R'. fold lo hi. lia. }
+  assert (OLD : Owed d rs = zsum (owed d (r_rw rs) cur) O + owedr d (r_rw rs) cur lo hi r).
+  { unfold Owed. fold P. change (cur_tick rs) with cur. pose proof (zsum_remove (owed d (r_rw rs) cur) P id q Q) as ZR. fold O in ZR. rewrite ZR.
+    unfold owed at 3. rewrite QI, R. fold lo hi. lia. }
+  unfold Phi. rewrite ON, OLD. unfold spread_bal, sc_of, rs', set_bank. cbn [r_base r_rw s_bank s_pool]. rewrite BC.
+  set (bal := b_spread (s_bank (r_base rs))) in *.
+  assert (BD : pr_sel d (fst bal - fst x, snd bal - snd x) = pr_sel d bal - pr_sel d x) by (destruct d; reflexivity).
+  rewrite BD. fold (sc_of rs) in INEQ |- *.
+  set (so := zsum (owed d (r_rw rs) cur) O) in *. set (o4 := zsum (owed d w cur) O) in *. set (o0 := owedr d (r_rw rs) cur lo hi r) in *.
+  set (cd := pr_sel d x) in *. set (bd := pr_sel d bal) in *. set (scv := sc_of rs) in *.
+  assert (LCP : 0 <= LC scv) by (unfold LC; pose proof P18_pos; nia).
+  clearbody so o4 o0 cd bd scv. nia.
 Qed.
